@@ -458,6 +458,20 @@ def return_term(p: Program, cls: ClassInfo, meth: str) -> Term:
     from .npcanon import desugar
 
     t = desugar(phi([r.term(n.ast.value, n) for n in rets]))  # np.less_equal(a, b) is a <= b, np.logical_and is &, ...
+
+    # accessor helpers of the same class (`self.x()` -> `self.values[:, 0]`): a call without arguments of a method that is a single return statement
+    def accessors(u: Term, depth: int = 2) -> Term:
+        if not isinstance(u, tuple):
+            return u
+        if u and u[0] == "call" and isinstance(u[1], tuple) and u[1][:2] == ("attr", ("param", "self")) and u[2] == () and u[3] == () and depth > 0 and u[1][2] != meth:
+            m = cls.lookup(u[1][2])
+            if m is not None and len(m.params) == 1 and not m.decorators:
+                body = [b for b in m.node.body if not (isinstance(b, ast.Expr) and isinstance(b.value, ast.Constant))]
+                if len(body) == 1 and isinstance(body[0], ast.Return) and body[0].value is not None:
+                    return accessors(return_term(p, cls, u[1][2]), depth - 1)
+        return tuple(accessors(x, depth) for x in u)
+
+    t = accessors(t)
     cache[key] = t
     return t
 
